@@ -260,14 +260,27 @@ class Interp:
     # ------------------------------------------------------------------ threads (single-threaded defaults)
     def sched_point(self, what):
         sc = self.model_state.get('sched')
-        if sc is not None:
+        if sc is not None and not self.model_state.get('no_preempt'):
             sc.point(self, what)
 
-    def block_on(self, lock):
+    def block_on(self, lock, mode='write'):
         sc = self.model_state.get('sched')
         if sc is None:
             self.deadlock('single thread blocks on a lock that is held')
-        sc.block(self, lock)
+        sc.block(self, (lock, mode))
+
+    def fork_thread(self, tid):
+        """an interpreter for another thread of the same run: shares memory, statics and the path context"""
+        child = Interp(self.p, self.ctx, self.models)
+        child.static_cells = self.static_cells
+        child.alloc_cells = self.alloc_cells
+        child.const_cache = self.const_cache
+        child.model_state = self.model_state
+        child.called = self.called
+        child.thread_id = tid
+        child.max_steps = self.max_steps
+        child.parent = self
+        return child
 
     def deadlock(self, msg):
         raise RustPanic('DEADLOCK: ' + msg, 'deadlock')
